@@ -225,10 +225,6 @@ impl BigNumber {
             return Err(err_msg!("Invalid modulus"));
         }
 
-        if b.bn.is_one() {
-            return BigNumber::new();
-        }
-
         if a.is_negative() {
             let res = self.inverse(&b)?;
             let a = a.set_negative(false)?;
@@ -236,6 +232,9 @@ impl BigNumber {
                 bn: res.bn.modpow(&a.bn, &BigNumber::_get_modulus(&b.bn)),
             })
         } else {
+            if b.bn.is_one() {
+                return BigNumber::new();
+            }
             let res = self.bn.modpow(&a.bn, &BigNumber::_get_modulus(&b.bn));
             Ok(BigNumber { bn: res })
         }
